@@ -107,12 +107,10 @@ def run_parsers(prop, tier):
                 n_tuples = 12 if tier == "quick" else 60
                 for j in range(n_tuples):
                     enum_jobs.append({"cmd": "custom", "method": "enum_c15",
-                                      "args": {"seed": base * 1000003 + j, "k": 2 + (j % 2)}, "id": "enum%d" % j,
+                                      "args": {"seed": base * 1000003 + j, "k": 2 + (j % 2)}, "id": "enum%d" % j, "must": True,
                                       "timeout": 600})
 
             def main_jobs():
-                for e in enum_jobs:
-                    yield e
                 gen = seeds_from(base, n_cross)
                 for i in range(n_main):
                     s = next(gen)
@@ -129,6 +127,8 @@ def run_parsers(prop, tier):
             # group A runs the same first n_cross seeds with the same generation arguments first,
             # then continues with the open-ended stream
             def a_jobs():
+                for e in enum_jobs:
+                    yield e
                 for j in cross_jobs(True):
                     yield j
                 for j in main_jobs():
